@@ -10,6 +10,7 @@ import (
 	"slices"
 	"strings"
 	"sync"
+	"sync/atomic"
 	"time"
 
 	"github.com/cenkalti/backoff/v4"
@@ -24,6 +25,7 @@ type zkDCS struct {
 	conn               *zk.Conn
 	eventsChan         <-chan zk.Event
 	lockHeld           sync.Map
+	lockHeldEpoch      atomic.Int64
 	disconnectCallback func() error
 	isConnected        bool
 	connectedChans     []chan struct{}
@@ -216,6 +218,7 @@ func (z *zkDCS) handleSessionEvent(ev zk.Event) {
 		}
 		z.connectedLock.Unlock()
 	} else {
+		z.lockHeldEpoch.Add(1)
 		z.lockHeld.Clear()
 		if z.closeTimer == nil {
 			z.closeTimer = time.AfterFunc(z.config.SessionTimeout, func() {
@@ -348,6 +351,7 @@ func (z *zkDCS) AcquireLock(path string) bool {
 		z.lockHeld.Delete(fullPath)
 	}
 	self := z.getSelfLockOwner()
+	epoch := z.lockHeldEpoch.Load()
 	data, _, err := z.retryGet(fullPath)
 	if err != nil && !errors.Is(err, zk.ErrNoNode) {
 		z.logger.Error().Err(err).Msgf("failed to get lock info %s", fullPath)
@@ -366,8 +370,7 @@ func (z *zkDCS) AcquireLock(path string) bool {
 			}
 			return false
 		}
-		verifHook("AcquireLock.store", z.config.Hostname)
-		z.lockHeld.Store(fullPath, time.Now())
+		z.cacheLock(fullPath, epoch)
 		return true
 	}
 	owner := LockOwner{}
@@ -376,11 +379,22 @@ func (z *zkDCS) AcquireLock(path string) bool {
 		return false
 	}
 	if owner == self {
-		verifHook("AcquireLock.store", z.config.Hostname)
-		z.lockHeld.Store(fullPath, time.Now())
+		z.cacheLock(fullPath, epoch)
 		return true
 	}
 	return false
+}
+
+// cacheLock remembers a lock that was just confirmed on the wire, unless a session
+// event invalidated the cache after the confirmation had started: handleSessionEvent
+// may have run between the server's answer and this store, and the entry would
+// then outlive the session loss it was supposed to be dropped on.
+func (z *zkDCS) cacheLock(fullPath string, epoch int64) {
+	verifHook("AcquireLock.store", z.config.Hostname)
+	z.lockHeld.Store(fullPath, time.Now())
+	if z.lockHeldEpoch.Load() != epoch {
+		z.lockHeld.Delete(fullPath)
+	}
 }
 
 func (z *zkDCS) ReleaseLock(path string) {
